@@ -254,7 +254,31 @@ def run_harness(ssa_path, fname, params=None, fixlen=None, unwind=10, unwind_by_
             if not hit:
                 raise RuntimeError('batch model satisfies no member of the disjunction')
             for ob in hit:
-                record(ob, 'sat', dt / len(hit), model=vals, observed=obs)
+                more = []
+                if max_models > 1 and ob.kind == 'assert':
+                    # further, different counterexamples of the same obligation (a first model need not reproduce natively
+                    # when a callee is summarised): block the values of the harness inputs and ask again
+                    seen = [m]
+                    for _ in range(max_models - 1):
+                        diffs = []
+                        for pm in seen:
+                            d = []
+                            for tag, kind, v in ctx.nondets:
+                                if kind == 'str':
+                                    d.append(b_not(s_eq(v, s_const(s_value(pm, v)))))
+                                elif kind in ('int', 'byte', 'bool'):
+                                    d.append(b_not(i_cmp('==', v, ev_int(pm, v), v.size(), False)) if not isinstance(v, bool) else False)
+                            diffs.append(bl(b_or(*d)))
+                        r3, s3, dt3 = solve(ctx, ob.cond, timeout_ms, [z3.Not(v) for v in sigs.values()] + diffs)
+                        solver_s += dt3
+                        nq += 1
+                        if r3 != z3.sat:
+                            break
+                        m3 = s3.model()
+                        seen.append(m3)
+                        v3, o3 = model_values(ctx, m3)
+                        more.append({'model': v3, 'observed': o3})
+                record(ob, 'sat', dt / len(hit), model=vals, observed=obs, more_models=more)
                 blocked.append(z3.Not(bl(ob.cond)) if not isinstance(ob.cond, bool) else (not ob.cond))
             pending = [ob for ob in pending if ob not in hit]
             rounds += 1
@@ -322,7 +346,7 @@ def _limit_memory():
     """a job whose encoding explodes must end as inconclusive (MemoryError), not take the machine down"""
     try:
         import resource
-        gb = float(os.environ.get('VERIF_JOB_MEM_GB', '14'))
+        gb = float(os.environ.get('VERIF_JOB_MEM_GB', '8'))
         resource.setrlimit(resource.RLIMIT_AS, (int(gb * (1 << 30)), int(gb * (1 << 30))))
     except Exception:
         pass
@@ -408,6 +432,9 @@ def summarize(results):
                 else:
                     viol.append({'harness': r['harness'], 'params': r.get('params'), 'fixlen': r.get('fixlen'), 'kind': o['kind'], 'name': o['name'], 'pos': o['pos'],
                                  'model': o.get('model'), 'observed': o.get('observed')})
+                    for mm in o.get('more_models', []):
+                        viol.append({'harness': r['harness'], 'params': r.get('params'), 'fixlen': r.get('fixlen'), 'kind': o['kind'], 'name': o['name'], 'pos': o['pos'],
+                                     'model': mm['model'], 'observed': mm.get('observed'), 'alternative_model': True})
             elif o['result'] == 'unknown':
                 inc.append({'harness': r['harness'], 'params': r.get('params'), 'why': 'solver unknown/timeout on %s' % o['name']})
             for k in o.get('known', []):
